@@ -23,14 +23,14 @@ func init() {
 		ID: "C18", Level: "exploration", Primary: "behaviours", EvalCount: "offending_connections",
 		Rule: "TLS configurations {server authentication only; client certificate required and verified (harness PKI on a gldap.Server, and testdirectory.Start(WithMTLS))} x offending client behaviours {plaintext LDAP request of each of " +
 			"the seven operations carrying a unique tag; arbitrary bytes; TCP connect without ClientHello; partial ClientHello; and - where a certificate is required - a TLS 1.2 and a TLS 1.3 handshake without certificate " +
-			"followed immediately by a tagged bind (in TLS 1.3 the client finishes first, so the request is already in flight when the server rejects), a certificate from a different CA, an expired certificate}, " +
+			"followed immediately by a tagged bind (in TLS 1.3 the client finishes first, so the request is already in flight when the server rejects), a certificate from a different CA, an expired certificate, and a client certificate that is valid for ANOTHER test directory / GetTLSConfig call of the same process}; plaintext requests are also followed by further writes on the same socket, " +
 			"run concurrently with conforming clients that are verified. Oracle: after each offending connection has been reported closed, no handler record (recording handlers / the test directory's own handler log) carries an offending tag. " +
 			"distinct_nontrivial = distinct (configuration, behaviour, operation) combinations",
 		Assume: []string{"for the test directory, handler execution is observed through its own Info-level handler log lines (bind/search/add/modify/delete handlers log the DN) and through directory state"},
 		Phases: func(tier string, seed int64) []Phase {
 			return []Phase{{Name: "gating", Run: c18Run}, {Name: "testdirectory-mtls", Run: c18Directory}}
 		},
-		MinObserved: []string{"offending_connections", "conforming_ops_verified", "tls13_no_cert_requests_in_flight", "directory_offending_connections"},
+		MinObserved: []string{"offending_connections", "conforming_ops_verified", "tls13_no_cert_requests_in_flight", "directory_offending_connections", "stranger_certificates_prepared"},
 	})
 }
 
@@ -90,6 +90,30 @@ func c18Behaviours(mtls bool, pki *PKI, postOp string) []c18Behaviour {
 			cn.Write(c18Frames(tag)[op])
 			cn.SetReadDeadline(time.Now().Add(5 * time.Second))
 			buf := make([]byte, 4096)
+			cn.Read(buf)
+			return true
+		}})
+	}
+	for _, op := range []string{"bind", "search", "add"} {
+		op := op
+		out = append(out, c18Behaviour{"plaintext-" + op + "-then-second-write", op, func(addr, tag string, _ *PKI) bool {
+			// a first plaintext request, whatever the server answers is read, then - on the same socket - the tagged request
+			// again in separate writes
+			cn, err := net.DialTimeout("tcp", addr, 5*time.Second)
+			if err != nil {
+				return false
+			}
+			defer cn.Close()
+			buf := make([]byte, 4096)
+			cn.Write(c18Frames("first-" + tag)[op])
+			for k := 0; k < 3; k++ {
+				cn.SetReadDeadline(time.Now().Add(150 * time.Millisecond))
+				cn.Read(buf)
+				if _, err := cn.Write(c18Frames(tag)[op]); err != nil {
+					break
+				}
+			}
+			cn.SetReadDeadline(time.Now().Add(2 * time.Second))
 			cn.Read(buf)
 			return true
 		}})
@@ -250,7 +274,8 @@ func c18Run(c *Ctx) {
 			default:
 				tag = string(o.DN)
 			}
-			if what, bad := offTags[tag]; bad {
+			what, bad := offTags[strings.TrimPrefix(tag, "first-")]
+			if bad {
 				c.Violate("a handler ran for bytes outside a TLS session satisfying the configuration", fmt.Sprintf("%s: %s request tagged %s reached route %s", what, o.Kind, tag, o.Route), map[string]any{"behaviour": what, "observed": o})
 			}
 		}
@@ -307,8 +332,26 @@ func c18Directory(c *Ctx) {
 	offTags := map[string]string{}
 	reps := c.N(3, 100)
 	k := 0
+	// client certificates that are perfectly valid - for a DIFFERENT directory started in the same process, or from a
+	// separate GetTLSConfig call: the first directory's CA did not issue them
+	var strangers []c18Behaviour
+	if td2, _, err := startDirectory("tls", testdirectory.WithMTLS(tl)); err == nil {
+		defer td2.Stop()
+		if cert2, err := tls.X509KeyPair([]byte(td2.ClientCert()), []byte(td2.ClientKey())); err == nil {
+			strangers = append(strangers, c18Behaviour{"certificate-of-another-directory", "add", c18TLSThenBind(&tls.Config{InsecureSkipVerify: true, Certificates: []tls.Certificate{cert2}}, "add")})
+		}
+	}
+	if m, _ := catch(func() {
+		_, cc := testdirectory.GetTLSConfig(tl, testdirectory.WithMTLS(tl))
+		if cc != nil && len(cc.Certificates) == 1 {
+			strangers = append(strangers, c18Behaviour{"certificate-of-another-GetTLSConfig-call", "add", c18TLSThenBind(&tls.Config{InsecureSkipVerify: true, Certificates: cc.Certificates}, "add")})
+		}
+	}); m != "" {
+		c.Inconclusive("GetTLSConfig: " + m)
+	}
+	c.Count("stranger_certificates_prepared", int64(len(strangers)))
 	for rep := 0; rep < reps; rep++ {
-		for _, bh := range c18Behaviours(true, pki, "add") {
+		for _, bh := range append(c18Behaviours(true, pki, "add"), strangers...) {
 			tag := fmt.Sprintf("cn=offender-%d,ou=people,dc=example,dc=org", c18Tag.Add(1))
 			offTags[tag] = bh.Name
 			inflight := bh.Run(addr, tag, pki)
